@@ -155,7 +155,7 @@ PROPS = {
     },
     'C01': {
         'native': ['c01_', 'c12_'],
-        'units': ['reader'],
+        'units': ['reader', 'proto'],
         'kani_quick': ['varuint_read_from_all_prefixes', 'varuint_read_from_short_input', 'reader_header_roundtrip', 'reader_outpoint_roundtrip', 'utils_arr_to_hex_one_byte'],
         'kani_thorough': [],
         'trusted': [
